@@ -15,7 +15,7 @@ import (
 func init() {
 	register(&Spec{ID: "C13", Title: "Cancelled or closed channels never block and never deliver", Run: runC13,
 		Meta: core.Meta{
-			Explanation: "Structural conditions of non-blocking behaviour; durations are not decided. R13.1: every blocking receive on Channel.packageCh, Channel.errCh or Conn.errCh is a select that also receives from Done() of the caller's context and of the connection context, each branch returning an error that wraps the respective Err() with %w; plain receives occur only after close() of the same channel (the drain in Close). R13.2 (E-LOCK, blocking-under-lock): every send on those channels is examined — a bare send (no select with an escape) executed while the channel's RWMutex is held blocks Close (which needs the write lock); a bare send on Conn.errCh parks the reader goroutine beyond Conn.Close. Bare sends on the reader goroutine's path (functions statically reachable from (*Conn).ReadFrom) are reported as one obligation per queue, bare sends anywhere else one per function. R13.3: every *Channel method that touches the queues or Go channels tests `closed` under the channel lock first (closed edge returns ErrChannelClosed or returns without effect); Close sets closed under the write lock, removes the channel from the connection, and closes both Go channels before draining them. R13.4: in sendPackets every sendPacket call lies in the default arm of a non-blocking select over the caller's and the connection's Done(). R13.5: every path through Conn.Close calls ctxCancel() and conn.Close() and closes the snapshot of channels; Logout bounds its waits with context.WithTimeout. R13.6: the reader loop tests the connection context at its head with an exit and passes that context to Packet.ReadFrom. R13.7 (E-LOCK): no call (including deferred calls, replayed LIFO at each exit) re-acquires a sync.RWMutex the caller already holds — recursive read locking deadlocks against a pending writer. R13.9 (E-LOCK): wherever Conn.tdsChannelsLock is held (read or write) no channel send, blocking receive/select or call that transitively contains one is executed — a reader parked on one channel's full queue would otherwise hold the connection-wide lock that Close and NewChannel of every other channel need. R13.2 also covers every other send in package tds: it is accepted only as the single send on a buffered channel made by the same call (NextPackage's no-wait slot). R13.10: no branch condition in package tds is computed from len() or cap() of a Go channel. R13.8: in every *Channel method with a ctx parameter, every context argument passed on derives from that parameter.",
+			Explanation: "Structural conditions of non-blocking behaviour; durations are not decided. R13.11: the receiver of every Channel.Close call in Conn.Close is traced (through the snapshot slice, appends and φs) to a range over Conn.tdsChannels, never to a per-id lookup. R13.12: in Channel.Close every return dominated by the store closed = true is dominated by delete(tdsChannels, ·). R13.1: every blocking receive on Channel.packageCh, Channel.errCh or Conn.errCh is a select that also receives from Done() of the caller's context and of the connection context, each branch returning an error that wraps the respective Err() with %w; plain receives occur only after close() of the same channel (the drain in Close). R13.2 (E-LOCK, blocking-under-lock): every send on those channels is examined — a bare send (no select with an escape) executed while the channel's RWMutex is held blocks Close (which needs the write lock); a bare send on Conn.errCh parks the reader goroutine beyond Conn.Close. Bare sends on the reader goroutine's path (functions statically reachable from (*Conn).ReadFrom) are reported as one obligation per queue, bare sends anywhere else one per function. R13.3: every *Channel method that touches the queues or Go channels tests `closed` under the channel lock first (closed edge returns ErrChannelClosed or returns without effect); Close sets closed under the write lock, removes the channel from the connection, and closes both Go channels before draining them. R13.4: in sendPackets every sendPacket call lies in the default arm of a non-blocking select over the caller's and the connection's Done(). R13.5: every path through Conn.Close calls ctxCancel() and conn.Close() and closes the snapshot of channels; Logout bounds its waits with context.WithTimeout. R13.6: the reader loop tests the connection context at its head with an exit and passes that context to Packet.ReadFrom. R13.7 (E-LOCK): no call (including deferred calls, replayed LIFO at each exit) re-acquires a sync.RWMutex the caller already holds — recursive read locking deadlocks against a pending writer. R13.9 (E-LOCK): wherever Conn.tdsChannelsLock is held (read or write) no channel send, blocking receive/select or call that transitively contains one is executed — a reader parked on one channel's full queue would otherwise hold the connection-wide lock that Close and NewChannel of every other channel need. R13.2 also covers every other send in package tds: it is accepted only as the single send on a buffered channel made by the same call (NextPackage's no-wait slot). R13.10: no branch condition in package tds is computed from len() or cap() of a Go channel. R13.8: in every *Channel method with a ctx parameter, every context argument passed on derives from that parameter.",
 			NotDecided:  "Latencies, goroutine counts and races between cancel and delivery are not decided; schedules are not explored.",
 			Assumptions: []string{"sync.RWMutex blocks new readers behind a pending writer (documented)", "select semantics of the Go specification"},
 		}})
@@ -36,6 +36,10 @@ func runC13(r *core.Run) {
 	defer c13NoBlockUnderMapLock(r, la)
 	r.Rule("R13.10", "no control decision on len()/cap() of a Go channel", 1, false)
 	defer c13NoLenOfChan(r, la)
+	r.Rule("R13.11", "Conn.Close closes the values of a range over the channel map", 1, false)
+	defer c13CloseAll(r)
+	r.Rule("R13.12", "Channel.Close unregisters the channel on every path that marks it closed", 1, false)
+	defer c13Unregister(r)
 
 	designated := map[*types.Var]string{
 		p.Field("tds", "Channel", "packageCh"): "Channel.packageCh",
@@ -140,7 +144,7 @@ func runC13(r *core.Run) {
 		}
 	}
 
-	c13Closed(r, la)
+	c13Closed(r, la, "R13.3")
 	c13SendPackets(r)
 	c13ConnClose(r)
 	c13Reader(r)
@@ -253,7 +257,7 @@ func c13Select(r *core.Run, fn *ssa.Function, sel *ssa.Select, chanField func(ss
 	}
 }
 
-func c13Closed(r *core.Run, la *lockAnalysis) {
+func c13Closed(r *core.Run, la *lockAnalysis, rule string) {
 	p := r.Prog
 	sensitive := map[*types.Var]bool{
 		p.Field("tds", "Channel", "packageCh"): true, p.Field("tds", "Channel", "errCh"): true,
@@ -311,7 +315,7 @@ func c13Closed(r *core.Run, la *lockAnalysis) {
 				}
 			}
 		}
-		r.Check(ok, "R13.3", key, fn.Pos(), "RLock, test closed, closed edge returns (ErrChannelClosed)", why)
+		r.Check(ok, rule, key, fn.Pos(), "RLock, test closed, closed edge returns (ErrChannelClosed)", why)
 	}
 	// Close
 	fPackageCh := p.Field("tds", "Channel", "packageCh")
@@ -337,7 +341,7 @@ func c13Closed(r *core.Run, la *lockAnalysis) {
 			okC, whyC = false, "closed is not set to true"
 		}
 	}
-	r.Check(okC, "R13.3", "Close: closed = true under the write lock", closeFn.Pos(), "Lock(); closed = true", whyC)
+	r.Check(okC, rule, "Close: closed = true under the write lock", closeFn.Pos(), "Lock(); closed = true", whyC)
 	for _, f := range []*types.Var{fPackageCh, fErrCh} {
 		var cl *ssa.Call
 		for _, c := range core.Calls(closeFn) {
@@ -352,7 +356,7 @@ func c13Closed(r *core.Run, la *lockAnalysis) {
 			}
 		}
 		ok := cl != nil && storeClosed != nil && core.Dominates(storeClosed, cl)
-		r.Check(ok, "R13.3", "Close: close("+f.Name()+") after closed = true", closeFn.Pos(), "the Go channel is closed after the flag is set under the write lock", "the Go channel "+f.Name()+" is not closed after marking the channel closed: waiting receivers are not released / later sends are not prevented")
+		r.Check(ok, rule, "Close: close("+f.Name()+") after closed = true", closeFn.Pos(), "the Go channel is closed after the flag is set under the write lock", "the Go channel "+f.Name()+" is not closed after marking the channel closed: waiting receivers are not released / later sends are not prevented")
 	}
 }
 
@@ -778,4 +782,154 @@ func c13NoLenOfChan(r *core.Run, la *lockAnalysis) {
 		}
 	}
 	r.Check(n > 0, "R13.10", "no branch on the fill level of a Go channel", token.NoPos, fmt.Sprintf("%d branches in package tds inspected", n), "no branches seen")
+}
+
+// c13CloseAll: R13.11. The channels Conn.Close closes are the values of a range over Conn.tdsChannels (directly or
+// through a snapshot slice filled from that range). Looking ids up one by one assumes something about which ids are
+// registered (dense, below a counter) that Channel.Close — which deletes ids — does not maintain, and the channels
+// left out are never closed.
+func c13CloseAll(r *core.Run) {
+	p := r.Prog
+	fn := p.Func("tds", "Conn", "Close")
+	chClose := p.Func("tds", "Channel", "Close")
+	fCh := p.Field("tds", "Conn", "tdsChannels")
+	calls := callsTo(fn, chClose)
+	for _, c := range calls {
+		seen := map[ssa.Value]bool{}
+		viaRange, viaLookup := false, false
+		var walk func(v ssa.Value, d int)
+		walk = func(v ssa.Value, d int) {
+			if v == nil || seen[v] || d > 40 {
+				return
+			}
+			seen[v] = true
+			switch x := v.(type) {
+			case *ssa.Extract:
+				walk(x.Tuple, d+1)
+			case *ssa.Next:
+				walk(x.Iter, d+1)
+			case *ssa.Range:
+				if f, _ := core.FieldLoad(x.X); f == fCh {
+					viaRange = true
+				} else {
+					walk(x.X, d+1)
+				}
+			case *ssa.Lookup:
+				if f, _ := core.FieldLoad(x.X); f == fCh {
+					viaLookup = true
+				} else {
+					walk(x.X, d+1)
+				}
+			case *ssa.Phi:
+				for _, e := range x.Edges {
+					walk(e, d+1)
+				}
+			case *ssa.Slice:
+				walk(x.X, d+1)
+			case *ssa.Call:
+				if bi, ok := x.Call.Value.(*ssa.Builtin); ok && bi.Name() == "append" {
+					for _, a := range x.Call.Args {
+						walk(a, d+1)
+					}
+				} else if f := x.Call.StaticCallee(); f != nil && core.InModule(f) && f.Blocks != nil {
+					// a snapshot helper: what it returns
+					for _, ret := range core.Returns(f) {
+						for _, rv := range core.RetVals(ret) {
+							walk(rv, d+1)
+						}
+					}
+				}
+			case *ssa.UnOp:
+				if x.Op == token.MUL {
+					walk(x.X, d+1)
+				}
+			case *ssa.IndexAddr:
+				walk(x.X, d+1)
+			case *ssa.Index:
+				walk(x.X, d+1)
+			case *ssa.MakeSlice, *ssa.Alloc:
+				// what is stored into it
+				for _, ref := range *v.Referrers() {
+					switch y := ref.(type) {
+					case *ssa.IndexAddr:
+						for _, r2 := range *y.Referrers() {
+							if st, ok := r2.(*ssa.Store); ok && st.Addr == ssa.Value(y) {
+								walk(st.Val, d+1)
+							}
+						}
+					case *ssa.Store:
+						if y.Addr == v {
+							walk(y.Val, d+1)
+						}
+					}
+				}
+			case *ssa.ChangeType:
+				walk(x.X, d+1)
+			}
+		}
+		walk(c.Common().Args[0], 0)
+		why := ""
+		switch {
+		case viaLookup:
+			why = "Conn.Close picks the channels to close by looking ids up in tdsChannels one by one: ids are not dense once a channel has been closed (Channel.Close deletes its id, ids are not reused), so channels with the highest ids are left open"
+		case !viaRange:
+			why = "the channels Conn.Close closes are not the values of a range over Conn.tdsChannels: a channel registered on the connection may be left open"
+		}
+		r.Check(why == "", "R13.11", "Conn.Close: closes the values of a range over tdsChannels", c.Pos(), "receiver of Channel.Close traced to range tds.tdsChannels", why)
+	}
+	if len(calls) == 0 {
+		r.Bad("R13.11", "Conn.Close: closes the values of a range over tdsChannels", fn.Pos(), "Conn.Close does not call Channel.Close")
+	}
+}
+
+// c13Unregister: R13.12. Channel.Close removes the channel from Conn.tdsChannels on every path on which it marks it
+// closed — not only when the logout/teardown went through. A closed channel that stays registered is closed a second
+// time by Conn.Close, which closes the already nil-ed queues and panics before it cancels the context and closes the
+// transport.
+func c13Unregister(r *core.Run) {
+	p := r.Prog
+	fn := p.Func("tds", "Channel", "Close")
+	fClosed := p.Field("tds", "Channel", "closed")
+	fCh := p.Field("tds", "Conn", "tdsChannels")
+	var marks []ssa.Instruction
+	var dels []ssa.Instruction
+	for _, b := range fn.Blocks {
+		for _, in := range b.Instrs {
+			switch x := in.(type) {
+			case *ssa.Store:
+				if fa, ok := x.Addr.(*ssa.FieldAddr); ok && core.FieldOfAddr(fa) == fClosed {
+					if c, isC := x.Val.(*ssa.Const); isC && c.Value != nil && c.Value.String() == "true" {
+						marks = append(marks, x)
+					}
+				}
+			case *ssa.Call:
+				if bi, ok := x.Call.Value.(*ssa.Builtin); ok && bi.Name() == "delete" {
+					if f, _ := core.FieldLoad(x.Call.Args[0]); f == fCh {
+						dels = append(dels, x)
+					}
+				}
+			}
+		}
+	}
+	why := ""
+	if len(marks) == 0 {
+		why = "Channel.Close no longer stores closed = true"
+	}
+	for _, m := range marks {
+		for _, ret := range core.Returns(fn) {
+			if !core.Dominates(m, ret) {
+				continue
+			}
+			ok := false
+			for _, d := range dels {
+				if core.Dominates(d, ret) {
+					ok = true
+				}
+			}
+			if !ok {
+				why = "a path through Channel.Close marks the channel closed and returns without delete(tdsChannels, id): the closed channel stays registered, Conn.Close closes it a second time (close of a nil channel panics) and never reaches ctxCancel()/conn.Close()"
+			}
+		}
+	}
+	r.Check(why == "", "R13.12", "Channel.Close: unregisters on every path that marks closed", fn.Pos(), fmt.Sprintf("%d store(s) of closed = true, every return they dominate is dominated by the delete", len(marks)), why)
 }
